@@ -112,7 +112,8 @@ f("numpy.unwrap", arrays=("p",), result=same("p"))
 f("numpy.interp", arrays=("x", "xp", "fp"), merge=[("x", "xp")], result=same("fp"))
 f("numpy.array_repr", arrays=("arr",), result="text")
 f("numpy.array2string", arrays=("a",), result="text")
-f("numpy.trapezoid", arrays=("y", "x"), flags={"x": ["array", None]}, result=("special", "trapezoid"))
+f("numpy.trapezoid", arrays=("y", "x"), flags={"x": ["array", None], "dx": [1.0, "array"]},
+  result=("special", "trapezoid"))     # integral of y over x (or with spacing dx): y.units * x.units (dx.units)
 f("numpy.take", arrays=("a",), result=same("a"))
 f("numpy.apply_over_axes", arrays=("a",), result=("special", "higher-order"))
 
